@@ -52,7 +52,15 @@ func c17FieldType(kind int) ast.Type {
 		if v.Bool("nconstraint") {
 			n.Scalar.Constraints = []ast.TypeConstraint{{Op: ast.MinLengthOp, Args: []any{int64(2)}}}
 		}
-		return ast.NewStruct(ast.NewStructField("n", n), ast.NewStructField("l", ast.NewArray(ast.String())), ast.NewStructField("m", ast.NewScalar(ast.KindBool), ast.Required()))
+		// the field may carry its own default, and the struct a default with a partial override for it
+		if v.Bool("nowndefault") {
+			n.Default = "own"
+		}
+		st := ast.NewStruct(ast.NewStructField("n", n), ast.NewStructField("l", ast.NewArray(ast.String())), ast.NewStructField("m", ast.NewScalar(ast.KindBool), ast.Required()))
+		if v.Bool("structdefault") {
+			st.Default = map[string]any{"n": "override"}
+		}
+		return st
 	default:
 		return ast.NewDisjunction(ast.Types{ast.String(), ast.NewScalar(ast.KindBool)})
 	}
@@ -379,6 +387,18 @@ func c17CheckOptionContract(kind int, schemas ast.Schemas, in ast.Option, outs [
 					p := outs[0].Assignments[i].Path
 					v.Assert(len(p) == len(target)+1 && c17SamePath(p[:len(target)], target) && p[len(p)-1].Identifier == f.Name,
 						"C17: struct_fields_as_arguments no longer assigns (a field of) the same target")
+					// a struct-level default for a field takes precedence over the field's own default
+					if in.Default != nil && len(in.Default.ArgsValues) == 1 {
+						if overrides, isMap := in.Default.ArgsValues[0].(map[string]any); isMap {
+							if want, has := overrides[f.Name]; has && !f.Type.IsConcreteScalar() {
+								for _, a := range outs[0].Args {
+									if a.Name == f.Name {
+										v.Assert(v.DeepEqual(a.Type.Default, want), "C17: struct_fields_as_arguments ignores the struct-level default of a field")
+									}
+								}
+							}
+						}
+					}
 					// each argument is guarded by exactly the constraints of its field
 					var want []ast.TypeConstraint
 					if f.Type.IsScalar() && !f.Type.IsConcreteScalar() {
